@@ -132,8 +132,13 @@ def _sample(t):
     f = P.formula(t["formula"])
     s = activation.Sample(f, c["mass"])
     ev = {"ev": "sample", "id": t["id"], "mass": dec.to_dec(c["mass"])}
+    akw = {}
+    abund = lambda iso: iso.abundance
+    if t.get("abundance") == "IAEA1987":          # the other abundance table the module offers (percent, 0 for isotopes without rows)
+        akw["abundance"] = activation.IAEA1987_isotopic_abundance
+        abund = activation.IAEA1987_isotopic_abundance
     try:
-        s.calculate_activation(_env(c), exposure=c["exposure"], rest_times=c["rests"])
+        s.calculate_activation(_env(c), exposure=c["exposure"], rest_times=c["rests"], **akw)
     except Exception as e:
         ev["exc"] = "%s: %s" % (type(e).__name__, str(e)[:100])
         return ev
@@ -144,7 +149,7 @@ def _sample(t):
         base = el.element if core.ision(el) else el          # an ion activates like its atom
         isos = [base] if core.isisotope(base) else [base[i] for i in base.isotopes]
         for iso in isos:
-            ab = 100.0 if core.isisotope(base) else iso.abundance
+            ab = 100.0 if core.isisotope(base) else abund(iso)
             m = c["mass"] * frac * ab * 0.01
             if not m:
                 continue
